@@ -294,4 +294,6 @@ class LinkedContext(ContextBase):
         self.linked_context[name] = value
 
     def create_child_context(self):
-        return type(self.linked_context)(self)
+        if isinstance(self.linked_context, Context):
+            return type(self.linked_context)(self)
+        return Context(self)
